@@ -75,7 +75,20 @@ func BuildEnvelopeCRC(msgType byte, payload []byte) []byte {
 // structure. payloads supplies plausible payload bodies (e.g. marshalled
 // protobufs); random bodies are mixed in.
 func GenEnvelopeBytes(t *rapid.T, payloads *rapid.Generator[[]byte]) []byte {
-	shape := rapid.IntRange(0, 9).Draw(t, "shape")
+	shape := rapid.IntRange(0, 11).Draw(t, "shape")
+	if shape == 11 {
+		// CRC flag set, a header longer than 12 bytes, and a CRC that is correct
+		// for what follows the header: only HeaderLen == 12 is a valid CRC header
+		body := payloads.Draw(t, "crcbody")
+		extra := rapid.SliceOfN(rapid.Byte(), 1, 24).Draw(t, "extra")
+		b := append([]byte{}, EnvelopeMagic...)
+		b = append(b, 0, byte(12+len(extra)), 1, byte(rapid.IntRange(0, 14).Draw(t, "ty")))
+		crc := make([]byte, 4)
+		binary.BigEndian.PutUint32(crc, crc32.Checksum(body, castagnoli))
+		b = append(b, crc...)
+		b = append(b, extra...)
+		return append(b, body...)
+	}
 	if shape == 0 {
 		// unstructured: short strings dominate
 		return rapid.OneOf(
